@@ -394,7 +394,14 @@ def _receiver_side(an, V, prop_cls):
     units, interleave, open_units = wire_units(an)
     # a stream ended by CANCEL or ERROR is dropped by its receiver at once; what is still in flight
     # for it is legitimately discarded (or reassembled from the middle): not judged
-    aborted = {ev['f']['sid'] for ev in an.by_kind['enq'] if ev['f']['type'] in ('CANCEL', 'ERROR')}
+    aborted = set()
+    for (req_ep, sid), hist in an.sid_hist.items():
+        for _, iid in hist:
+            ia = an.ia.get(iid, {})
+            planned_error = any((ia.get(n) or {}).get('error_at') is not None for n in ('resp', 'pub')) or \
+                (ia.get('resp') or {}).get('mode') in ('raise', 'fail')
+            if planned_error or an.cancel_seq(iid) is not None or an.cancel_seq(iid, 'responder') is not None:
+                aborted.add(sid)
     for ep in ('client', 'server'):
         peer = other(ep)
         src = defaultdict(list)
